@@ -15,6 +15,7 @@ from typing import Dict, Optional, Type
 from zope.interface import implementer
 
 from twisted.internet.abstract import FileDescriptor
+from twisted.internet.base import _threadCallHandler
 from twisted.internet.interfaces import IReactorFDSet
 from twisted.internet.posixbase import (
     _NO_FILEDESC,
@@ -290,7 +291,15 @@ class AsyncioSelectorReactor(PosixReactorBase):
         return dc
 
     def callFromThread(self, f, *args, **kwargs):
-        g = lambda: self.callLater(0, f, *args, **kwargs)
+        # Run the call itself from the event loop.  It used to be turned into
+        # a DelayedCall with callLater(0, f, *args, **kwargs): a keyword
+        # argument named like one of callLater's own parameters was then
+        # rejected with TypeError, and application code cancelling its timers
+        # (getDelayedCalls) cancelled calls issued from threads as well.
+        def g():
+            with _threadCallHandler:
+                f(*args, **kwargs)
+
         self._asyncioEventloop.call_soon_threadsafe(g)
 
 
